@@ -55,6 +55,9 @@ C18toy ==
                 \A f \in 0 .. ((p - 1) \div 2) * ((q - 1) \div 2) :
                    LET g == PowM(h, f, N) IN (g > 1 /\ Gcd(g, N) = 1) => WellFormedElement(g, p, q)
 
+\* informational: the links between sub-proofs that the composite verifiers do not check (F11)
+ReportLinks == PrintT(<< "MISSING-LINKS", ToJson(MissingLinks) >>)
+
 \* the derivations, as cases for the replayer: accepted iff the attribute vector is unchanged
 ExportDerivs ==
   \A n \in 1 .. 5 :
